@@ -440,3 +440,94 @@ pub fn well_formed_token(t: &[u8]) -> bool {
         _ => true,
     }
 }
+
+// ------------------------------------------------------------------------------------------------
+// R-LUA: value-level semantics of Lua 5.1 / Luau operators on abstract values.
+
+/// What executing an operator yields: an exact value, or `Any` when the model does not
+/// determine it (run-time error, possible metamethod, untracked string bytes, `pow`).
+#[derive(Clone, Copy, PartialEq, Debug)]
+pub enum Outcome {
+    Value(V),
+    /// some number, value untracked
+    AnyNumber,
+    /// some boolean, value untracked
+    AnyBoolean,
+    /// some string
+    AnyString,
+    Any,
+}
+
+fn floor(x: f64) -> f64 {
+    x.floor()
+}
+
+fn small_integer(x: f64) -> bool {
+    x == floor(x) && x >= -67108864.0 && x <= 67108864.0
+}
+
+/// `a op b` for the operator numbering of [`priority`].
+pub fn lua_binary(op: u8, a: V, b: V) -> Outcome {
+    match op {
+        0 => Outcome::Value(if a.truthy() { b } else { a }),
+        1 => Outcome::Value(if a.truthy() { a } else { b }),
+        2 | 3 => match lua_raw_equal(a, b) {
+            Some(equal) => Outcome::Value(if equal == (op == 2) { V::True } else { V::False }),
+            None => Outcome::AnyBoolean,
+        },
+        4..=7 => match (a, b) {
+            (V::Number(x), V::Number(y)) => {
+                let holds = match op {
+                    4 => x < y,
+                    5 => x <= y,
+                    6 => x > y,
+                    _ => x >= y,
+                };
+                Outcome::Value(if holds { V::True } else { V::False })
+            }
+            (V::Str, V::Str) => Outcome::AnyBoolean,
+            _ => Outcome::Any, // error, or a metamethod
+        },
+        8..=14 => match (a, b) {
+            (V::Number(x), V::Number(y)) => match op {
+                8 => Outcome::Value(V::Number(x + y)),
+                9 => Outcome::Value(V::Number(x - y)),
+                10 => Outcome::Value(V::Number(x * y)),
+                11 => Outcome::Value(V::Number(x / y)),
+                12 => Outcome::Value(V::Number(floor(x / y))),
+                13 => {
+                    // Lua 5.1: a - floor(a/b)*b ; Luau: fmod-based. They agree exactly on
+                    // integer-valued operands of small magnitude, the only ones checked.
+                    if small_integer(x) && small_integer(y) && y != 0.0 {
+                        Outcome::Value(V::Number(x - floor(x / y) * y))
+                    } else {
+                        Outcome::AnyNumber
+                    }
+                }
+                _ => Outcome::AnyNumber, // `^`: pow is not modelled
+            },
+            // strings may coerce to numbers (value untracked) or raise an error
+            (V::Number(_), V::Str) | (V::Str, V::Number(_)) | (V::Str, V::Str) => Outcome::Any,
+            _ => Outcome::Any,
+        },
+        _ => match (a, b) {
+            (V::Number(_) | V::Str, V::Number(_) | V::Str) => Outcome::AnyString,
+            _ => Outcome::Any,
+        },
+    }
+}
+
+/// Unary operators: 0 `not`, 1 `-`, 2 `#`.
+pub fn lua_unary(op: u8, a: V) -> Outcome {
+    match op {
+        0 => Outcome::Value(if a.truthy() { V::False } else { V::True }),
+        1 => match a {
+            V::Number(x) => Outcome::Value(V::Number(-x)),
+            _ => Outcome::Any,
+        },
+        _ => match a {
+            V::Str => Outcome::AnyNumber,
+            _ => Outcome::Any,
+        },
+    }
+}
